@@ -18,6 +18,7 @@ RULE = ("Inner applications = generated response recipes of every class (several
         "ASGI body events, repeated headers, odd reason phrases), plus apps raising before / after start or mid-body; wrapped in identity `middleware` stacks of depth "
         "1-3, identity `decorator` stacks of depth 1-3 and a middleware that edits exactly one header; GET/HEAD, Range for files; both interfaces. "
         "Non-trivial = inner app with repeated headers, >=2 body chunks, an empty body, or an error; distinct = (recipe, wrapper, depth, request, interface).")
+RULE += ' Also: bodies above 1 MiB, latin-1 Set-Cookie lines, headers handed over as a one-shot iterator, a middleware appending to an existing header under a mixed-case name, iterators without close() that raise after the first chunk, a repeated header whose first value is empty, one reused bytearray as ASGI body (the emulators snapshot it when written).'
 ASSUMPTIONS = [
     "headers are compared as multisets with case-folded names; reason phrases and body chunking are not compared",
     "Set-Cookie expiry dates are masked (two runs may straddle a second)",
